@@ -52,16 +52,32 @@ def decide(case, wctx):
         with Submitter(worker="debug", cache_root=cache) as sub:
             res = sub(t, raise_errors=True)
         return json.loads(env.jdump(res.outputs.out))
+    held = []        # (slot, version of the slot's inputs, constructed workflow)
+    version = {}
+
+    def recheck_held(i):
+        # a workflow object handed out for one construction must keep that construction's inputs
+        for (hk, hv, hwf) in held:
+            if version.get(hk) != hv:
+                continue              # the task's inputs were changed afterwards: a legitimately stale object
+            for inp in ("x", "y"):
+                v = getattr(hwf.inputs, inp)
+                if not is_lazy(v) and v != cur[hk][inp]:
+                    problems.append({"step": i, "why": "a previously constructed workflow now holds another construction's input",
+                                     "slot": hk, "input": inp, "got": v, "expected": cur[hk][inp]})
+                    return
     for i, op in enumerate(case["ops"]):
         k = op.get("slot")
         try:
             if op["op"] == "new":
                 slots[k] = GenWF(spec=json.dumps(SPECS[op["spec"]], sort_keys=True), x=op["x"], y=op["y"])
                 cur[k] = {"spec": op["spec"], "x": op["x"], "y": op["y"], "ran": False}
+                version[k] = 0
                 steps.append({"op": op})
             elif op["op"] == "set":
                 setattr(slots[k], op["field"], op["value"])
                 cur[k][op["field"]] = op["value"]
+                version[k] += 1
                 last_set = (k, cur[k]["ran"])
                 steps.append({"op": op})
             elif op["op"] in ("run", "fresh_run"):
@@ -83,8 +99,13 @@ def decide(case, wctx):
                                 stale = [xv, yv]
                     problems.append({"step": i, "why": "run outputs differ from the reference for the inputs in force",
                                      "inputs": [c["x"], c["y"]], "got": out, "expected": want, "matches_inputs": stale})
-            elif op["op"] == "construct":
-                wf = Workflow.construct(slots[k], lazy=op["lazy"])
+            elif op["op"] in ("construct", "tconstruct"):
+                if op["op"] == "tconstruct":
+                    wf = slots[k].construct()          # the task-level (memoised) construction used by runs
+                    op = {**op, "lazy": []}
+                else:
+                    wf = Workflow.construct(slots[k], lazy=op["lazy"])
+                held.append((k, version[k], wf))
                 c = cur[k]
                 seen = {}
                 for nd in SPECS[c["spec"]]["nodes"]:
@@ -107,6 +128,7 @@ def decide(case, wctx):
                 if names != sorted(nd["name"] for nd in SPECS[c["spec"]]["nodes"]):
                     problems.append({"step": i, "why": "constructed graph has the wrong nodes", "got": names})
                 steps.append({"op": op, "node_inputs": seen})
+            recheck_held(i)
         except Exception as e:  # noqa: BLE001
             problems.append({"step": i, "why": "operation raised", "op": op, "error": f"{type(e).__name__}: {str(e)[:200]}"})
             break
@@ -134,18 +156,25 @@ def case_batch(case, wctx):
 def gen_case(rng):
     ops = []
     live = []
-    for _ in range(rng.randint(3, 7)):
-        kind = rng.choice(["new", "run", "run", "set", "construct", "fresh_run"]) if live else "new"
+    for _ in range(rng.randint(3, 8)):
+        kind = rng.choice(["new", "new", "run", "run", "set", "construct", "tconstruct", "tconstruct", "fresh_run"]) if live else "new"
         if kind == "new":
             k = len(live)
             live.append(k)
-            ops.append({"op": "new", "slot": k, "spec": rng.randrange(len(SPECS)), "x": rng.choice(VALS), "y": rng.choice(VALS)})
+            if ops and rng.random() < 0.6:
+                # a sibling of an existing task: same workflow, other value of one input (shares cached constructions)
+                base = next(o for o in ops if o["op"] == "new")
+                ops.append({"op": "new", "slot": k, "spec": base["spec"], "x": rng.choice(VALS), "y": base["y"]})
+            else:
+                ops.append({"op": "new", "slot": k, "spec": rng.randrange(len(SPECS)), "x": rng.choice(VALS), "y": rng.choice(VALS)})
         elif kind == "run":
             ops.append({"op": "run", "slot": rng.choice(live)})
         elif kind == "set":
             ops.append({"op": "set", "slot": rng.choice(live), "field": rng.choice(["x", "y"]), "value": rng.choice(VALS)})
         elif kind == "construct":
             ops.append({"op": "construct", "slot": rng.choice(live), "lazy": sorted(rng.sample(["x", "y"], rng.randint(0, 2)))})
+        elif kind == "tconstruct":
+            ops.append({"op": "tconstruct", "slot": rng.choice(live)})
         else:
             ops.append({"op": "fresh_run", "spec": rng.randrange(len(SPECS)), "x": rng.choice(VALS), "y": rng.choice(VALS)})
     if not any(o["op"] in ("run", "fresh_run") for o in ops):
